@@ -22,7 +22,7 @@ const (
 )
 
 var c09TrigNames = []string{"timeout-reset", "failure-reset", "explicit-reset", "shutdown"}
-var c09RtNames = []string{"exits-on-TERM", "ignores-TERM", "already-exited", "never-started"}
+var c09RtNames = []string{"exits-on-TERM", "ignores-TERM", "already-exited", "never-started", "failed-to-launch"}
 var c09ExtNames = []string{"absent", "subscribed-exits", "subscribed-ignores", "subscribed-not-polling", "unsubscribed", "already-exited", "failed-to-launch", "never-registers"}
 
 type c09Cell struct{ trig, rt, e1, e2 int }
@@ -36,6 +36,19 @@ func c09Valid(c c09Cell) bool {
 	neverStarted := has(6) || has(7)
 	if (c.rt == 3) != neverStarted {
 		return false
+	}
+	if c.rt == 4 {
+		// the runtime itself cannot be launched (after the extensions have registered): the initialisation fails
+		// without any process exit; the extensions are registered ones or absent
+		if c.trig != trFailure {
+			return false
+		}
+		for _, s := range exts {
+			if s != 0 && s != 1 && s != 2 && s != 4 {
+				return false
+			}
+		}
+		return true
 	}
 	if has(6) && has(7) {
 		return false
@@ -79,7 +92,7 @@ func c09Valid(c c09Cell) bool {
 func c09Cells() []c09Cell {
 	var out []c09Cell
 	for trig := 0; trig < 4; trig++ {
-		for rt := 0; rt < 4; rt++ {
+		for rt := 0; rt < 5; rt++ {
 			for e1 := 0; e1 < 8; e1++ {
 				for e2 := 0; e2 < 8; e2++ {
 					c := c09Cell{trig, rt, e1, e2}
@@ -142,7 +155,7 @@ func scenC09(r *Run, job *Job) {
 		exts = append(exts, ExtCfg{Name: name, Subs: subs})
 		stateOf[name] = st
 	}
-	if t.Chance(1, 4) && cell.rt != 3 {
+	if t.Chance(1, 4) && cell.rt < 3 {
 		exts = append(exts, ExtCfg{Name: "i1", Internal: true, Subs: intSubSets[t.Draw(2)]})
 	}
 	if t.Chance(1, 2) {
@@ -165,6 +178,9 @@ func scenC09(r *Run, job *Job) {
 		if st == 6 {
 			w.Sup.ExecFail["extension-"+name+"-1\x00"] = []error{os.ErrPermission, os.ErrNotExist}[t.Draw(2)]
 		}
+	}
+	if cell.rt == 4 {
+		w.Sup.ExecFail["runtime-1\x00"] = []error{os.ErrPermission, os.ErrNotExist}[t.Draw(2)]
 	}
 	// budget of explicit operations
 	budget := []time.Duration{2 * time.Second, 500 * time.Millisecond, 5 * time.Second, 10 * time.Second, 100 * time.Millisecond}[t.Draw(5)]
@@ -192,10 +208,11 @@ func scenC09(r *Run, job *Job) {
 		midInvoke, faultIdle = false, true // the party exits while idle, then the operator acts
 	}
 	long := T + 30*time.Second
+	ignoreMode := []string{"ignore", "poll"}[t.Draw(2)]
 
 	// which invocation is the victim: init-time cells act on invocation 1, the others on invocation 2
 	victim := 2
-	if cell.rt == 3 {
+	if cell.rt >= 3 {
 		victim = 1
 	}
 	e.BehavFor = BehavForExts(exts, func(p *Proc, b *Behav) {
@@ -234,7 +251,8 @@ func scenC09(r *Run, job *Job) {
 			b.OnShutdown = []string{"", "exit1"}[t.Draw(2)]
 			b.ShutDelay = shutDelay
 		case 2:
-			b.OnShutdown = "ignore"
+			// ignores the event: goes quiet, or asks for its next event as if nothing had happened
+			b.OnShutdown = ignoreMode
 		case 3:
 			// polls through invocation 1, receives the event of invocation 2 and then does not come back to next
 			b.Script, b.ThenHealthy = []Op{{Kind: "register"}, {Kind: "extnext"}, {Kind: "extnext"}}, false
@@ -327,7 +345,7 @@ func scenC09(r *Run, job *Job) {
 		// no invocation after a shutdown: stop once it returned
 		e.Done = func() bool { return trigDone && op.done && e.callersIdleOrStuck() }
 	}
-	r.Desc = fmt.Sprintf("C09 cell=%d trig=%s rt=%s e1=%s e2=%s T=%ds exts=%v budget=%s termDelay=%s killLat=%s evLat=%s shutDelay=%s mid=%v faultIdle=%v", ci%len(cells), c09TrigNames[cell.trig], c09RtNames[cell.rt], c09ExtNames[cell.e1], c09ExtNames[cell.e2], timeoutSec, exts, budget, termDelay, killLat, evLat, shutDelay, midInvoke, faultIdle)
+	r.Desc = fmt.Sprintf("C09 cell=%d trig=%s rt=%s e1=%s e2=%s T=%ds exts=%v budget=%s termDelay=%s killLat=%s evLat=%s shutDelay=%s mid=%v faultIdle=%v ignore=%s", ci%len(cells), c09TrigNames[cell.trig], c09RtNames[cell.rt], c09ExtNames[cell.e1], c09ExtNames[cell.e2], timeoutSec, exts, budget, termDelay, killLat, evLat, shutDelay, midInvoke, faultIdle, ignoreMode)
 	r.Logf("%s", r.Desc)
 	e.Stuck = func() {
 		if cell.trig == trShutdown && trigDone && op.done {
@@ -542,6 +560,11 @@ func c09Judge(r *Run, w *World, e *Engine, cell c09Cell, op *opResult, T time.Du
 						ok = strings.Contains(strings.ToLower(d.Ev.ShutdownReason), "timeout")
 					case trFailure:
 						ok = strings.Contains(strings.ToLower(d.Ev.ShutdownReason), "fail")
+						if cell.rt == 4 {
+							// an initialisation that failed without any process exit is torn down by the shutdown the
+							// front end issues before it retries
+							ok = d.Ev.ShutdownReason == "spindown"
+						}
 					default:
 						ok = d.Ev.ShutdownReason == want
 					}
@@ -615,6 +638,22 @@ func c09Judge(r *Run, w *World, e *Engine, cell c09Cell, op *opResult, T time.Du
 			}
 		}
 	}
+	// no request may name a process that was never started
+	for _, q := range ep {
+		r.Check(q.Err != "no_such_entity", "C09.request-for-unstarted", "%s request at %s for %s, which was never started", q.Kind, fmtDur(q.At), q.Name)
+	}
+	// a kill request must be one the supervisor can act on (it refuses a request whose deadline has already passed
+	// without sending any signal), and no process of the torn-down generation may survive the run
+	for _, q := range ep {
+		if q.Kind == "kill" {
+			r.Check(q.Err != "invalid timeout", "C09.kill-refused", "the kill request for %s at %s carried a deadline that had already passed (%s): the supervisor refuses it and sends no signal", q.Name, fmtDur(q.At), fmtDur(q.Deadline))
+		}
+	}
+	for _, p := range append(append([]*Proc{}, extProcs...), rt) {
+		if p != nil {
+			r.Check(!p.Alive, "C09.not-reaped", "%s of the torn-down generation is still alive at the end of the run", p.Name)
+		}
+	}
 	// return: not before every process is reaped (or the 2 s grace), not after the deadline + allowance
 	var R time.Duration
 	haveR := false
@@ -650,6 +689,22 @@ func c09Judge(r *Run, w *World, e *Engine, cell c09Cell, op *opResult, T time.Du
 				r.Check(R >= lastPhase+2*time.Second-time.Millisecond, "C09.early-return", "operation returned at %s although %s was not reaped (event sent=%v at %s) and the 2 s grace (from %s) had not passed", fmtDur(R), p.Name, p.EventSent, fmtDur(p.EventAt), fmtDur(lastPhase))
 				r.Probe("returned-after-grace")
 			}
+		}
+		// ... and no grace period when there is nobody left to wait for: once the exit of every process has been
+		// delivered (and the last phase has begun) the operation returns promptly
+		allAt, all := lastPhase, true
+		for _, p := range append(append([]*Proc{}, extProcs...), rt) {
+			if p == nil {
+				continue
+			}
+			if !p.EventSent {
+				all = false
+			} else if p.EventAt > allAt {
+				allAt = p.EventAt
+			}
+		}
+		if all {
+			r.Check(R <= allAt+time.Second+time.Duration(r.Stats.InjectedDelayNs), "C09.needless-grace", "operation returned at %s although the exit of every process had been delivered by %s", fmtDur(R), fmtDur(allAt))
 		}
 		if haveB {
 			bound := S + B + 2*time.Second + 3*killLat + 250*time.Millisecond + time.Duration(r.Stats.InjectedDelayNs)
